@@ -8,7 +8,7 @@ OUT="/var/tmp/c10-trials/$(basename "$(dirname "$P")")"
 mkdir -p "$OUT"
 if [ -n "$(git -C /repo status --porcelain --untracked-files=no)" ]; then echo "refusing: /repo has local changes" >&2; exit 3; fi
 git -C /repo apply "$P" || { echo "patch does not apply" >&2; exit 3; }
-trap 'git -C /repo checkout -- . ; echo "[/repo restored]"' EXIT INT TERM
+trap 'git -C /repo checkout -- . ; git -C /repo clean -fdq src ; echo "[/repo restored]"' EXIT INT TERM
 C10_EVIDENCE="$OUT/evidence.json" C10_REPLAY_DIR="$OUT/replays" /verif/check C10 "$TIER" >"$OUT/stdout.txt" 2>"$OUT/stderr.txt"
 RC=$?
 echo "exit=$RC"; grep -E "VIOLATION|violation in run|KNOWN-FINDING|harness error|held on" "$OUT/stdout.txt" "$OUT/stderr.txt" | head -8
